@@ -37,12 +37,14 @@ def bounded(tier, seed, stop_first=False):
 
 
 def replay_search(obligation, qual, seed, tier):
-    r = bounded(tier if tier in ('quick', 'thorough') else 'quick', seed, stop_first=True)
-    v = r.get('violations') or []
-    if obligation:
-        for x in v:
+    tier = tier if tier in ('quick', 'thorough') else 'quick'
+    if obligation and str(obligation).startswith('bounded['):
+        # a named bounded check: the full run reports one witness per check name
+        for x in bounded(tier, seed).get('violations') or []:
             if x.get('check') == obligation:
                 return x
+        return None
+    v = bounded(tier, seed, stop_first=True).get('violations') or []
     return v[0] if v else None
 
 
